@@ -902,12 +902,17 @@ func driveC20(c *h.Ctx) error {
 			c.Eval("fresh-objects", true)
 			return nil
 		}
+		if m, _ := c.Replay["case"].(map[string]any); m != nil && m["mode"] == "concurrent-keys" {
+			c20ConcurrentKeys(c)
+			return nil
+		}
 		c20Replay(c, tt)
 		return nil
 	}
 	c20CheckFreshObjects(c, freshRefs)
 	c.Eval("fresh-objects", true)
 	c.Count("fresh-objects-probes")
+	c20ConcurrentKeys(c)
 
 	em := &c20Emit{names: map[string]string{}, budget: c.Pick(700_000, 5_000_000)}
 	var histRows []string
